@@ -17,6 +17,7 @@
 From Coq Require Import List ZArith Bool Arith.
 Import ListNotations.
 From DD Require Import Base.PyStr Base.Value Diff.Tree Diff.DiffModel Diff.DiffEmpty.
+From DD Require Hash.HashModel.
 
 (* A structural copy gives an empty diff - for EVERY opcode oracle that tiles the
    lists (it need not be truthful), every item hash, every udiff, every threshold <= 1,
@@ -30,21 +31,36 @@ Print Assumptions C02_copy_empty.
 
 (* An empty diff means Python-equal ([py_eqv] = Python's == on values: 1 == True == 1.0,
    dicts and sets up to order).
-   GUARDS, both needed (refutations below):
-   - the item hash is injective on scalars (the real DeepHash is not: finding K1);
-   - every dict key of the inputs is looked at: [keys_all (keep_key c)] says no key is
-     hidden by ignore_private_variables (documented: str keys starting with "__"
-     are not compared when ignore_private_variables=True, the default). *)
+   GUARDS, both needed (refutations below).  [inputs_ok keep ok t] (boolean, Diff/DiffEmpty.v):
+   every dict key of t, at every depth, satisfies [keep] and every set / frozenset member
+   satisfies [ok].
+   - keep = keep_key c: no key is hidden by ignore_private_variables (documented: str keys
+     starting with "__" are not compared when ignore_private_variables=True, the default);
+   - ok: where the item hash is injective (the real DeepHash is not everywhere: finding K1). *)
 Theorem C02_empty_sound :
-  forall hatom udiff ops excl c t1 t2,
-    (forall a b, hatom a = hatom b -> a = b) -> valid_ops ops ->
+  forall hatom udiff ops excl c ok t1 t2,
+    (forall a b, ok a = true -> ok b = true -> hatom a = hatom b -> a = b) -> valid_ops ops ->
     wf t1 = true -> wf t2 = true ->
-    keys_all (keep_key c) t1 = true -> keys_all (keep_key c) t2 = true ->
+    inputs_ok (keep_key c) ok t1 = true -> inputs_ok (keep_key c) ok t2 = true ->
     fst (run_diff hatom udiff ops (fun _ => false) excl c t1 t2) = [] -> py_eqv t1 t2 = true.
 Proof. intros. eapply run_empty_sound; eassumption. Qed.
 Print Assumptions C02_empty_sound.
 
-(* with ignore_private_variables=False there is no condition on the keys *)
+(* the same for the model of the real item hash: DeepHash of a scalar (Hash/HashModel.v
+   [hash_atom], memo-free) over ANY injective hasher H, options other than the mode at their
+   defaults.  The only guards left are boolean conditions on the inputs: keys looked at, and set
+   members [tag_safe_atom] (no str equal to 'NONE' or containing ':'). *)
+Theorem C02_empty_sound_deephash :
+  forall H o udiff ops excl c t1 t2,
+    (forall s t, H s = H t -> s = t) -> Hash.HashModel.plain o = true ->
+    valid_ops ops -> wf t1 = true -> wf t2 = true ->
+    inputs_ok (keep_key c) Hash.HashModel.tag_safe_atom t1 = true ->
+    inputs_ok (keep_key c) Hash.HashModel.tag_safe_atom t2 = true ->
+    fst (run_diff (Hash.HashModel.hash_atom H o) udiff ops (fun _ => false) excl c t1 t2) = [] -> py_eqv t1 t2 = true.
+Proof. intros. eapply run_empty_sound_deephash; eassumption. Qed.
+Print Assumptions C02_empty_sound_deephash.
+
+(* with ignore_private_variables=False and an everywhere-injective hash: no condition on the inputs *)
 Theorem C02_empty_sound_public :
   forall hatom udiff ops excl c t1 t2,
     ignore_private c = false ->
@@ -52,8 +68,10 @@ Theorem C02_empty_sound_public :
     wf t1 = true -> wf t2 = true ->
     fst (run_diff hatom udiff ops (fun _ => false) excl c t1 t2) = [] -> py_eqv t1 t2 = true.
 Proof.
-  intros hatom udiff ops excl c t1 t2 Hp. intros.
-  eapply run_empty_sound; try eassumption; apply keys_all_true; intros k; apply keep_all_public; exact Hp.
+  intros hatom udiff ops excl c t1 t2 Hp Hinj. intros.
+  eapply (run_empty_sound hatom udiff ops excl c any_atom); try eassumption;
+    try (apply inputs_ok_true; [intros k; apply keep_all_public; exact Hp|reflexivity]).
+  intros a b _ _. apply Hinj.
 Qed.
 Print Assumptions C02_empty_sound_public.
 
@@ -61,8 +79,8 @@ Print Assumptions C02_empty_sound_public.
 Theorem C02_empty_sound_guards_satisfiable :
   valid_ops one_block /\ (forall a b, inj_hash a = inj_hash b -> a = b) /\
   wf nv_t1 = true /\ wf nv_t2 = true /\
-  keys_all (keep_key (mkCfg false 33 100 true)) nv_t1 = true /\
-  keys_all (keep_key (mkCfg false 33 100 true)) nv_t2 = true /\
+  inputs_ok (keep_key (mkCfg false 33 100 true)) any_atom nv_t1 = true /\
+  inputs_ok (keep_key (mkCfg false 33 100 true)) any_atom nv_t2 = true /\
   fst (run_diff inj_hash (fun _ _ => []) one_block (fun _ => false) (fun _ => false) (mkCfg false 33 100 true) nv_t1 nv_t2) = [] /\
   value_eqb nv_t1 nv_t2 = false.
 Proof. exact sound_guards_satisfiable. Qed.
@@ -84,8 +102,8 @@ Print Assumptions C02_empty_sound_refuted_private.
    the implementation by harness/props/c02.py. *)
 Theorem C02_empty_sound_refuted_hash :
   wf k1_t1 = true /\ wf k1_t2 = true /\
-  keys_all (keep_key (mkCfg false 33 100 false)) k1_t1 = true /\
-  keys_all (keep_key (mkCfg false 33 100 false)) k1_t2 = true /\
+  inputs_ok (keep_key (mkCfg false 33 100 false)) any_atom k1_t1 = true /\
+  inputs_ok (keep_key (mkCfg false 33 100 false)) any_atom k1_t2 = true /\
   fst (run_diff deephash_atom (fun _ _ => []) one_block (fun _ => false) (fun _ => false) (mkCfg false 33 100 false) k1_t1 k1_t2) = [] /\
   py_eqv k1_t1 k1_t2 = false.
 Proof. exact empty_sound_refuted_hash. Qed.
